@@ -31,6 +31,7 @@ pub fn run(p: &str, thorough: bool, rest: &[String]) {
         "C06" => c06::run(thorough),
         "C07" => c07::run(thorough),
         "C08" => c08::run(thorough),
+        "C08-cycles-child" => c08::cycles_child(),
         "C09" => c09::run(thorough),
         "C10" => c10::run(thorough),
         "C11" => c11::run(thorough),
